@@ -137,6 +137,7 @@ pub struct Src {
     pub touched_at: u64,
     pub cb_count: usize,
     pub cbs_in_dispatch: u32,
+    pub ping_cbs_in_dispatch: u32,
     pub last_cb_dispatch: u64,
     pub enabled_at_dispatch_start: bool,
     pub must: Option<String>,
@@ -207,6 +208,7 @@ impl Src {
             touched_at: 0,
             cb_count: 0,
             cbs_in_dispatch: 0,
+            ping_cbs_in_dispatch: 0,
             last_cb_dispatch: 0,
             enabled_at_dispatch_start: false,
             must: None,
